@@ -203,6 +203,28 @@ def run(ctx):
             cab1 = float(navis.morpho.cable_length(y)) * u[1][0]
             if u[0] != 'nm' or any(abs(v - NM[tgt]) > 1e-9 * NM[tgt] for v in u[1]) or abs(cab1 - cab0) > 1e-5 * max(1, cab0):
                 ctx.violation('convert_units does not yield the requested unit with physical sizes preserved', dict(desc, to=tgt), dict(units=u, cable_before=cab0, cable_after=cab1))
+        # convert_units for the other neuron types: the requested unit, physical extent preserved
+        for okind in ('mesh', 'dotprops', 'voxels'):
+            o = objs[okind]
+            o.units = '8 nm' if okind != 'voxels' else str(rng.choice(['8 nm', '2 um']))
+            def extent_nm(n_):
+                c_ = coords(n_, okind)
+                one = float(navis.config.ureg('1 ' + str(n_.units_xyz.units)).to('nm').magnitude)
+                return ((c_.max(axis=0) - c_.min(axis=0)) * (one if okind == 'voxels' else np.asarray(n_.units_xyz.to('nm').magnitude, dtype=float)))
+            e0 = extent_nm(o)
+            tgt2 = str(rng.choice(['um', 'nm']))
+            st, oy = guarded(o.convert_units, tgt2, inplace=False)
+            ctx.count('convert:' + okind)
+            dd = dict(kind=okind, units=str(o.units), to=tgt2)
+            if st != 'ok':
+                ctx.violation('convert_units raised', dd, oy)
+                continue
+            e1 = extent_nm(oy)
+            unit_ok = str(oy.units_xyz.units) in ('micrometer', 'nanometer') and (str(oy.units_xyz.units) == {'um': 'micrometer', 'nm': 'nanometer'}[tgt2])
+            if np.abs(e1 - e0).max() > 1e-6 * max(1.0, np.abs(e0).max()) or not unit_ok:
+                ctx.violation('convert_units does not yield the requested unit with physical sizes preserved', dd,
+                              dict(extent_nm_before=e0.tolist(), extent_nm_after=e1.tolist(), units_after=str(oy.units)),
+                              key='C15:voxel-convert-units' if okind == 'voxels' else None)
         # map_units / string-valued distances
         dist = float(rng.choice([0.5, 2, 5]))
         st, m = guarded(x.map_units, '%g microns' % dist)
@@ -288,6 +310,7 @@ def run(ctx):
         vol = navis.Volume(tm_.vertices, tm_.faces, name='v')
         ops2 = {
             'mesh:copy': lambda: me.copy(),
+            'mesh:rewrap': lambda: navis.MeshNeuron(me),
             'mesh:make_dotprops': lambda: navis.make_dotprops(me, k=5),
             'mesh:skeletonize': lambda: navis.skeletonize(me),
             'mesh:subset': lambda: navis.subset_neuron(me, np.arange(len(me.vertices))[:30]),
